@@ -35,6 +35,14 @@ DIRECTED = {
     "shutdown-with-queued": [C("r1", BIG), C("r1", BIG), C("r2", BIG, 1), E("shutdown")],
     "shutdown-while-sending-fail": [C("r1", BIG), C("r2", BIG), E("shutdown"), E("sendfail")],
     "duplicate-block-status": [C("r1", 1, 0, True), C("r2", 1, 0, True), E("sendok")],
+    # a failed send whose scrub empties the first of several queued messages: the others must still leave in queued order
+    "scrub-first-of-four": [C("r1", BIG), C("r1", BIG), C("r2", BIG), C("r2", BIG), C("r2", BIG), E("sendfail"), E("sendok"), E("sendok"), E("sendok")],
+    "scrub-middle-of-five": [C("r1", BIG), C("r2", BIG), C("r1", BIG), C("r2", BIG), C("r2", BIG), C("r2", BIG), E("sendfail"), E("sendok"), E("sendok"), E("sendok"), E("sendok")],
+    # an empty message at the head of the queue (its stream was closed after the memory was reserved) and a message too big to join it behind
+    "empty-head-then-big": [C("r1", 1), E("gate-alloc"), C("r1", 1), E("sendfail"), E("release-alloc"), C("r2", 2 * BIG), E("sendok")],
+    # the send fails and the sender cannot be opened again: the message in flight is still reported
+    "send-fails-then-cannot-reopen": [C("r1", 1, 0, True), E("connfail"), E("sendfail")],
+    "send-fails-then-cannot-reopen-queued": [C("r1", BIG), C("r2", BIG, 0, True), E("connfail"), E("sendfail")],
 }
 
 
@@ -123,7 +131,7 @@ def run(pid, tier, seed, extra_cases=None, key=None):
         # every second script with two or more block-carrying calls sends one and the same block in all of them
         k = 0
         for c in cases:
-            if sum(1 for e in c["script"] if e.get("ev") in ("call", "begin") and e.get("blk", 0) > 0) >= 2:
+            if c["name"] == "tlc" and sum(1 for e in c["script"] if e.get("ev") in ("call", "begin") and e.get("blk", 0) > 0) >= 2:
                 k += 1
                 if k % 2 == 0:
                     c["sameBlock"] = True
@@ -144,7 +152,9 @@ def run(pid, tier, seed, extra_cases=None, key=None):
             rec = byid[cid]
             if x["desync"]:
                 n_desync += 1
-                continue
+                if names[cid] in ("tlc", "pm-tlc"):
+                    continue     # an enumerated script may need a branch of a Go select that the run did not take
+                # a directed script is written to be followed: when the run leaves it, what was observed is judged all the same
             for prob in x[KEY[pid]]:
                 sc = rec["case"]["script"]
                 evs = [e["ev"] for e in sc]
